@@ -2,6 +2,7 @@ package region
 
 import (
 	"context"
+	"time"
 
 	"github.com/tsuna/gohbase/hrpc"
 	"github.com/tsuna/gohbase/pb"
@@ -484,4 +485,70 @@ func VerifHello() {
 	verifAssert(len(w) >= 10 && string(w[:6]) == "HBas\x00\x50", "preamble: magic, version 0, simple auth")
 	verifAssert(int(vU32(w[6:])) == len(w)-10, "big-endian length of the connection header that follows")
 	verifReach("hello")
+}
+
+// VerifQueueFlush (C12/C02/C05): the batching goroutine of a real region client (queue size 2,
+// flush interval > 0 or 0) is handed CALLS gets - one by one or two at a time, with or without a
+// pause in which the flush timer may fire: whatever way the calls end up grouped, every call is
+// written exactly once, the calls of the one region in the order they were queued, and when
+// the client is closed every call gets exactly one result.
+func VerifQueueFlush() {
+	conn := &vConn{}
+	c := vNewClient(conn, 2)
+	if verifBool() {
+		c.flushInterval = 20 * time.Millisecond
+	}
+	reg := vReg("t,,1")
+	ctx := context.Background()
+	n := verifParam("CALLS")
+	var calls []hrpc.Call
+	for i := 0; i < n; i++ {
+		calls = append(calls, vGet(ctx, vKeys[i], reg))
+	}
+	go c.processRPCs()
+	for i := 0; i < n; {
+		if i+1 < n && verifBool() {
+			c.QueueBatch(ctx, []hrpc.Call{calls[i], calls[i+1]})
+			i += 2
+		} else {
+			c.QueueRPC(calls[i])
+			i++
+		}
+		if verifBool() {
+			verifQuiesce() // the caller pauses: the writer may flush on its timer
+		}
+	}
+	verifQuiesce()
+	if verifNative() {
+		time.Sleep(60 * time.Millisecond) // let the flush timer fire
+		verifQuiesce()
+	}
+	stream := conn.wrote
+	pos := 0
+	seen := map[string]int{}
+	for len(stream) > 0 {
+		f := vParseFrame(stream)
+		verifAssert(f.ok && f.hdr.GetMethodName() == "Multi", "the writer sends whole multi-requests")
+		stream = f.rest
+		mr := f.req.(*pb.MultiRequest)
+		verifAssert(len(mr.RegionAction) == 1, "one region, one region action")
+		for _, a := range mr.RegionAction[0].Action {
+			row := string(a.Get.Row)
+			seen[row]++
+			verifAssert(pos < n && row == vKeys[pos], "the calls of a region reach the server in the order they were queued")
+			pos++
+		}
+	}
+	verifAssert(pos == n, "every queued call has been written")
+	for i := 0; i < n; i++ {
+		verifAssert(seen[vKeys[i]] == 1, "every call is written exactly once")
+	}
+	c.Close()
+	verifQuiesce()
+	for _, cl := range calls {
+		verifAssert(vResults(cl) == 1, "every call gets exactly one result when the connection is closed")
+	}
+	verifAssert(verifGoroutines() == 0, "the writer is gone after Close")
+	verifObserveInt("frames", len(conn.writes))
+	verifReach("flushed")
 }
